@@ -119,7 +119,7 @@ func TestC11FanOut(t *testing.T) {
 				}
 			}
 		}
-		if err := runC11(w); err != nil {
+		if err := watchdog(scenarioLimit, func() error { return runC11(w) }); err != nil {
 			evid.ReplayNote("C11", "TestC11FanOut", w.describe()+err.Error())
 			t.Fatalf("%s%v", w.describe(), err)
 		}
@@ -289,14 +289,31 @@ func runC11(w *c11World) error {
 			}
 		}
 		vp.UnblockWrites()
-		prev := -1
-		for k := 0; k < 400; k++ {
-			cur := vp.NumWrites()
-			if cur == prev && k > 3 {
-				break
+		// the channel has drained exactly when a marker queued behind the backlog is on its wire (the queue is
+		// first-in first-out); a marker can itself be dropped while the queue is still full, so it is repeated
+		drained := false
+		for try := 0; try < 60 && !drained; try++ {
+			if err := n.WriteMessageTo(chans[w.overflowFirst], &common.MessageDebug{TimeBootMs: uint32(try), Ind: 98, Value: 2.5}); err != nil {
+				return fmt.Errorf("BROKEN: prologue marker: %v", err)
 			}
-			prev = cur
-			time.Sleep(2 * time.Millisecond)
+			until := time.Now().Add(250 * time.Millisecond)
+			for !drained && time.Now().Before(until) {
+				ws := vp.Writes()
+				for k := len(ws) - 1; k >= 0 && !drained; k-- {
+					if f, _, err := ref.Parse(ws[k]); err == nil && f.ID == debugMsgID {
+						if v, derr := lay(debugMsgID).Decode(f.Payload, f.V2); derr == nil {
+							dm := v.(*common.MessageDebug)
+							drained = dm.Ind == 98 && int(dm.TimeBootMs) == try
+						}
+					}
+				}
+				if !drained {
+					time.Sleep(time.Millisecond)
+				}
+			}
+		}
+		if !drained {
+			return fmt.Errorf("channel %d: after its transport stalled and recovered, nothing written to it reached the wire for %v", w.overflowFirst, 60*250*time.Millisecond)
 		}
 		for c, p := range pipes {
 			if c != w.overflowFirst && !p.WaitWrites(80, bound) {
